@@ -37,36 +37,81 @@ func atomMatches(a Atom, i, o Obj) bool {
 		return o.NS == i.NS
 	case "valIndex":
 		return o.Val == i.Val
+	case "keys":
+		return o.ResourceName() == i.Ref || o.ResourceName() == i.NS+"/x"
+	case "objName":
+		return o.ResourceName() == i.NS+"/y"
 	case "generic":
 		return genericPred(a.N, i, o)
 	}
 	return false
 }
 
-func goSpec(t Transform, prim, sec map[string]Obj) map[string]Out {
+// oracleValue builds the value of the outputs of input i on its own (it does not share code with the
+// transformation function handed to krt).
+func oracleValue(t Transform, i Obj, src func(n int) map[string]Obj) (string, bool) {
+	val := i.NS + "|" + i.NS + "/" + i.Name + ":" + i.Val + "|"
+	for n, f := range t.Fetches {
+		var hits []string
+		for _, o := range src(n) {
+			ok := true
+			for _, a := range f {
+				if !atomMatches(a, i, o) {
+					ok = false
+				}
+			}
+			if ok {
+				hits = append(hits, o.NS+"/"+o.Name+"="+o.Val)
+			}
+		}
+		if n == 0 && t.Gate && len(hits) == 0 {
+			return "", false
+		}
+		sort.Strings(hits)
+		val += "[" + strings.Join(hits, ",") + "]"
+	}
+	if t.chainSuffix {
+		val += "|c"
+	}
+	return val, true
+}
+
+func goSpec(t Transform, prim map[string]Obj, src func(n int) map[string]Obj) map[string]Out {
 	res := map[string]Out{}
 	for _, i := range prim {
-		outs := outputs(t, i, func(f []Atom) []Obj {
-			var l []Obj
-			for _, o := range sec {
-				ok := true
-				for _, a := range f {
-					ok = ok && atomMatches(a, i, o)
-				}
-				if ok {
-					l = append(l, o)
-				}
-			}
-			return l
-		})
-		for _, o := range outs {
-			if t.chainSuffix {
-				o.Val += "|c"
-			}
-			res[o.Key] = o
+		val, ok := oracleValue(t, i, src)
+		if !ok {
+			continue
+		}
+		keys := []string{i.NS + "/" + i.Name}
+		if t.Multi {
+			keys = i.Outs
+		}
+		for _, k := range keys {
+			res[k] = Out{Key: k, NS: i.NS, Val: val}
 		}
 	}
 	return res
+}
+
+// effSrc: the objects fetch number n sees, by source mode.
+func (c *caseRun) effSrc() func(n int) map[string]Obj {
+	return func(n int) map[string]Obj {
+		switch {
+		case c.secmode == "sj":
+			m := map[string]Obj{}
+			for k, o := range c.sec2M {
+				m[k] = o
+			}
+			for k, o := range c.secM {
+				m[k] = o
+			}
+			return m
+		case c.secmode == "s2" && n%2 == 1:
+			return c.sec2M
+		}
+		return c.secM
+	}
 }
 
 func valsOf(m map[string]Out) map[string]string {
@@ -174,26 +219,21 @@ func oracleCase(t *testing.T, lines [][]string) string {
 			return
 		}
 		c = newCaseRun(tr, contains(head[4:], "f6"))
-		c.chain = contains(head[4:], "chain")
+		c.setFlags(head[4:])
 		tr.chainSuffix = c.chain
-		sec := map[string]Obj{}
+		tr1 := tr
+		tr1.chainSuffix = false
 		base := map[string]map[string]string{}
-		for n, l := range lines[1:] {
-			switch l[0] {
-			case "s.set":
-				if o, ok := parseObj(l[len(l)-1]); ok && len(l) == 2 {
-					sec[o.ResourceName()] = o
-				}
-			case "s.del":
-				if len(l) == 2 {
-					delete(sec, l[1])
-				}
-			case "s.reset":
-				sec = map[string]Obj{}
-				for _, o := range parseObjs(l[1:]) {
-					sec[o.ResourceName()] = o
-				}
+		pbase := map[string]map[string]string{}
+		dbase := map[string]map[string]string{}
+		primVals := func() map[string]string {
+			m := map[string]string{}
+			for k, o := range c.d.prim {
+				m[k] = o.Token()
 			}
+			return m
+		}
+		for n, l := range lines[1:] {
 			impl, trace := c.step(l)
 			if impl == "crash" {
 				fail("crash", fmt.Sprint(n))
@@ -201,16 +241,40 @@ func oracleCase(t *testing.T, lines [][]string) string {
 			}
 			if l[0] == "sub" && len(l) == 3 && c.der != nil {
 				if l[2] == "nostate" {
-					base[l[1]] = valsOf(goSpec(tr, c.d.prim, sec))
+					base[l[1]] = valsOf(goSpec(tr, c.d.prim, c.effSrc()))
 				} else {
 					base[l[1]] = map[string]string{}
 				}
 			}
-			if c.der == nil || c.d.guard() != "" {
+			if l[0] == "dsub" && len(l) == 3 && c.der != nil {
+				if l[2] == "nostate" {
+					dbase[l[1]] = valsOf(goSpec(tr1, c.d.prim, c.effSrc()))
+				} else {
+					dbase[l[1]] = map[string]string{}
+				}
+			}
+			if l[0] == "psub" && len(l) == 3 {
+				// registered before this line's state change? psub changes nothing: the mirror is current
+				if l[2] == "nostate" {
+					pbase[l[1]] = primVals()
+				} else {
+					pbase[l[1]] = map[string]string{}
+				}
+			}
+			if l[0] == "pstream" {
+				toks := strings.Fields(trace)
+				if b, ok := pbase[toks[1]]; ok && len(toks) >= 2 {
+					if r := goMonitor(b, toks[2:], primVals(), all); r != "" {
+						fail("pstream", fmt.Sprintf("op%d:%s", n+1, r))
+					}
+				}
+				continue
+			}
+			if c.der == nil || c.guard() != "" {
 				continue
 			}
 			inU, notU := c.d.inU, func(k string) bool { return !c.d.inU(k) }
-			spec := goSpec(tr, c.d.prim, sec)
+			spec := goSpec(tr, c.d.prim, c.effSrc())
 			where := fmt.Sprintf("op%d", n+1)
 			switch l[0] {
 			case "list", "ulist":
@@ -253,6 +317,31 @@ func oracleCase(t *testing.T, lines [][]string) string {
 					}
 					if d := diffMaps(real, want, inU); d != "" {
 						fail("f6:lookup", where+":"+d)
+					}
+				}
+			case "flookup":
+				if len(l) == 2 && c.lateIdx != nil {
+					real := map[string]string{}
+					for _, o := range c.lateIdx.Lookup(l[1]) {
+						real[o.Key] = o.Val
+					}
+					want := map[string]string{}
+					for k, o := range spec {
+						if contains(outFetched(o.Val), l[1]) {
+							want[k] = o.Val
+						}
+					}
+					if d := diffMaps(real, want, notU); d != "" {
+						fail("flookup", where+":"+d)
+					}
+				}
+			case "dstream":
+				toks := strings.Fields(trace)
+				if len(toks) >= 2 {
+					if b, ok := dbase[toks[1]]; ok {
+						if r := goMonitor(b, toks[2:], valsOf(goSpec(tr1, c.d.prim, c.effSrc())), notU); r != "" {
+							fail("dstream", where+":"+r)
+						}
 					}
 				}
 			case "stream", "ustream":
